@@ -133,11 +133,14 @@ def check(prog, res, tier):
         return entry
 
     stop = 'builtins.StopIteration'
+    ipm_runs = []
     for cls in ('mciipm.VbsReader', 'mciipm.IpmReader'):
         ci = prog.cls(cls)
         nfi = ci.lookup('__next__')[1]
         for bl in (False, True):
             runs = Runs(prog, vbs_entry(cls, bl), raise_ops=True, summaries=reader_summ, hooks=common.HOOKS, res=res)
+            if cls == 'mciipm.IpmReader':
+                ipm_runs.append(runs)
             for ob in escape_obs(prog, res, 'C07.a',
                                  f'only the library data error or StopIteration escapes {ci.name}.__next__ '
                                  f'({"1014-blocked" if bl else "unblocked"})',
@@ -184,34 +187,24 @@ def check(prog, res, tier):
                                             f'the comprehension absorbs StopIteration'
         res.add(ob)
 
-    # ---------------- C07.b handler adequacy
+    # ---------------- C07.b handler adequacy (semantic: what happens to the library error of loads inside IpmReader)
     ipm_next = prog.cls('mciipm.IpmReader').lookup('__next__')[1]
-    loads_esc = {exc_key(p.value.cls) for p in du.loads.inv if p.outcome == 'raise'}
-    ob = Ob('C07.b', 'IpmReader.__next__ wraps everything iso8583.loads may raise', func_where(ipm_next),
+    ob = Ob('C07.b', 'IpmReader.__next__ converts the library error of iso8583.loads into MciIpmDataError', func_where(ipm_next),
             'except <handler> around iso8583.loads(...)')
-    handlers = []
-    for n in ast.walk(ipm_next.node):
-        if isinstance(n, ast.Try):
-            if any(isinstance(c, ast.Call) and ast.unparse(c.func).endswith('loads') for b in n.body for c in ast.walk(b)):
-                handlers.extend(n.handlers)
-    if not handlers:
-        ob.verdict, ob.detail = REFUTED, 'iso8583.loads is called outside any try/except'
-        ob.witness = {'handlers': 0}
+    unwrapped, wrapped = 0, 0
+    for runs in ipm_runs:
+        for p in runs.inv:
+            caught = [e for e in p.evs('caught') if exc_key(e.data['exc'].cls) == lib and e.func == ipm_next.short]
+            if caught and p.outcome == 'raise' and exc_key(p.value.cls) == mlib:
+                wrapped += 1
+            if p.outcome == 'raise' and exc_key(p.value.cls) == lib:
+                unwrapped += 1
+    if unwrapped:
+        ob.verdict, ob.detail, ob.witness = REFUTED, 'Iso8583DataError raised by loads leaves IpmReader.__next__ unconverted (no handler catches it)', {'paths': unwrapped}
+    elif not wrapped:
+        ob.verdict, ob.detail = UNDECIDED, 'no path on which the error of loads is caught and converted was observed'
     else:
-        from ..interp import Analysis, Interp
-        it = Interp(Analysis(prog), ())
-        from ..interp import Frame
-        it.frames.append(Frame(ipm_next, ipm_next.module))
-        cls = prog.classes.get(lib)
-        if cls is None:
-            raise AnalysisError('Iso8583DataError not found')
-        if it._match_handler(handlers, ExcV(cls, [])) is None:
-            ob.verdict = REFUTED
-            ob.detail = 'the handler around iso8583.loads does not catch Iso8583DataError'
-            ob.witness = {'handler': ast.unparse(handlers[0].type) if handlers[0].type else 'bare'}
-        else:
-            ob.verdict, ob.detail = PROVED, f'handler {ast.unparse(handlers[0].type) if handlers[0].type else "bare"} ' \
-                                            f'catches Iso8583DataError, the only exception loads may raise (C07.a)'
+        ob.verdict, ob.detail = PROVED, f'{wrapped} abstract paths catch Iso8583DataError and raise MciIpmDataError; none lets it through'
     res.add(ob)
 
     for tool, fn in (('cli.mci_ipm_to_csv', 'cli_run'), ('cli.mideu', 'cli_run'), ('cli.paramconv', 'cli_run')):
